@@ -150,6 +150,25 @@ class Family(object):
             ('PM.sample', lambda k: self.PM.sample(xs[k], tt, n_samples=3, seed=s['seed'] + k, return_df=False)),
             ('M.simulate', lambda k: self.M.simulate(xs[k][:ll0['n_par']], np.array([0.5, 1.0, 2.0]))),
         ]
+        # evaluations at a point where the mechanistic model cannot be solved (chi returns -infinity with a warning): the
+        # rejected evaluation leaves no trace in later ones
+        def failing(fn):
+            def run_(k):
+                import warnings
+                from vf import analytic_model
+                bad = xs[k].copy()
+                bad[0] = -abs(bad[0]) - 1.0
+                analytic_model.FAIL_BELOW[0] = 0.0
+                try:
+                    with warnings.catch_warnings():
+                        warnings.simplefilter('ignore')
+                        return fn(bad)
+                finally:
+                    analytic_model.FAIL_BELOW[0] = None
+            return run_
+        calls += [('L1.S1_failing', failing(lambda b: self.L1.evaluateS1(b))),
+                  ('L1.call_failing', failing(lambda b: self.L1(b))),
+                  ('P1.S1_failing', failing(lambda b: self.P1.evaluateS1(b)))]
         # pointwise evaluation over a posterior dataset that stores the parameters under other names (param_map)
         import xarray as xr
         lnames = [str(n) for n in self.L1.get_parameter_names()]
@@ -170,7 +189,7 @@ class Family(object):
         calls.append(('PO.sample', lambda k: self.PO.sample(tt, n_samples=3, individual=['a', 'b', 'a'][k],
                                                             seed=s['seed'] + 7 * k)[['ID', 'Time', 'Value']]))
         self.derived_independent = {'L1.call', 'L1.pointwise', 'L1.S1', 'L2.call', 'L2.S1', 'P1.call', 'P1.S1', 'P1.initial',
-                                    'PM.sample', 'L1.pointwise_dataset'}
+                                    'PM.sample', 'L1.pointwise_dataset', 'L1.S1_failing', 'L1.call_failing', 'P1.S1_failing'}
         if h['n_ids'] >= 2:
             # hierarchical objects over freshly built likelihoods of the same user models
             lls = [chi.LogLikelihood(self.M, self.ems, d[0], d[1]) for d in data]
@@ -251,6 +270,20 @@ class Family(object):
             ('CP.sens_reduced', lambda k: self.CP.compute_sensitivities(cp_th[k], cp_x[k], covariates=cp_cov,
                                                                         dlogp_dpsi=cp_u, reduce=True)),
             ('CP.sens', lambda k: self.CP.compute_sensitivities(cp_th[k], cp_x[k], covariates=cp_cov, dlogp_dpsi=cp_u)),
+        ]
+        # a fully pooled composed model that a hierarchical likelihood over three individuals uses (by reference), also
+        # evaluated directly for a sub-group of two: evaluating it does not reconfigure it
+        from vf.analytic_model import AnalyticModel
+        self.CPP = chi.ComposedPopulationModel([chi.PooledModel(n_dim=1), chi.PooledModel(n_dim=1)])
+        lls3 = [chi.LogLikelihood(AnalyticModel(1, 1), [chi.GaussianErrorModel()], [np.array([1.0 + 0.2 * i, 1.4])],
+                                  [np.array([0.5, 1.5])]) for i in range(3)]
+        self.H3 = chi.HierarchicalLogLikelihood(lls3, self.CPP)
+        h3x = [self._keep('h3x', np.array([0.9 + 0.1 * k, 0.6])) for k in range(3)]
+        calls += [
+            ('H3.call', lambda k: self.H3(h3x[k])),
+            ('H3.S1', lambda k: self.H3.evaluateS1(h3x[k])),
+            ('CPP.sens_subgroup', lambda k: self.CPP.compute_sensitivities(h3x[k], np.tile(h3x[k], (2, 1)), reduce=True)),
+            ('CPP.n_ids', lambda k: np.array([float(self.CPP.n_ids())])),
         ]
         # reduced pooled model (the individual values ARE the parameters held in the shared buffer)
         rp2 = chi.ReducedPopulationModel(chi.PooledModel(n_dim=2))
